@@ -265,7 +265,7 @@ theorem run_length : ∀ (f start : Nat) (end_ : Option Nat) (items : List (Item
       | ev e =>
         by_cases hS : isStart e = true
         · rcases run_start_cases hS h with ⟨mts1, p, hsc, hp, rfl⟩ |
-            ⟨mts1, idx, t, inner, tail, rest', mts3, innerOut, mts4, out, p, hsc, ht, hb, hst, h3, h4, h5, rfl⟩
+            ⟨mts1, idx, t, inner, tail, rest', mts3, innerOut, mts4, out, p, hsc, ht, hst, h3, h4, h5, rfl⟩
           · have h1 := scan_length e start end_ 0 mts; rw [hsc] at h1
             have := ih _ _ _ _ _ hp
             simp only at h1 ⊢; omega
@@ -353,7 +353,7 @@ theorem run_ins : ∀ (f s : Nat) (en : Option Nat) (items : List (Item σ)) (mt
             congr 1
             cases (scanP (fun p => inWindow s en (0 + p)) e mts).2 <;> simp
           rcases run_start_cases hS h with ⟨mts1, p, hsc, hp, rfl⟩ |
-            ⟨mts1, idx, t, inner, tail, rest', mts3, innerOut, mts4, out, p, hsc, ht, hb, hst, h3, h4, h5, rfl⟩
+            ⟨mts1, idx, t, inner, tail, rest', mts3, innerOut, mts4, out, p, hsc, ht, hst, h3, h4, h5, rfl⟩
           · rw [hsc] at hscan'
             have hl1 := scan_length e s en 0 mts; rw [hsc] at hl1
             obtain ⟨tn', hsh', hrun⟩ := ih s en rest mts1 p k tn1 s' en' hn1 (by simp only at hl1; omega) hs he hp
@@ -406,7 +406,7 @@ theorem run_ins : ∀ (f s : Nat) (en : Option Nat) (items : List (Item σ)) (mt
             have hl5 := updRange_length tail s (idx + 1) 0 mts4
             obtain ⟨tn6, hsh6, hrun6⟩ := ih s en rest' _ p k tn5 s' en' hn5 (by omega) hs he h5
             refine ⟨tn6, Shape.trans hsh1 (Shape.trans hsh3 (Shape.trans hsh4 (Shape.trans hsh5 hsh6))), ?_⟩
-            simp only [run, hS, ↓reduceIte, hscan', Option.map_some, hget, hb, Bool.not_true, Bool.false_eq_true,
+            simp only [run, hS, ↓reduceIte, hscan', Option.map_some, hget,
               hst, hfired, hrun3, hrun4, hupd, hrun6]
         · by_cases hE : isEnd e = true
           · simp only [run, hS, Bool.false_eq_true, ↓reduceIte, hE] at h ⊢
